@@ -132,6 +132,9 @@ func cmdVerify(args []string) {
 			deadNote = fmt.Sprintf(" INFEASIBLE-PATHS=%d", dead)
 		}
 		fmt.Printf("%-60s paths=%d obligations=%d discharged=%d%s\n", shortFn(res.Key), res.Paths, len(names), ok, deadNote)
+		if len(res.Vacuous) > 0 {
+			fmt.Printf("  NO-SUCH-CALL %s: the contract mentions calls of %s, but none was recorded on any path\n", shortFn(res.Key), strings.Join(res.Vacuous, ", "))
+		}
 	}
 	if *whyDead {
 		seen := map[string]bool{}
